@@ -54,7 +54,8 @@ type World struct {
 	Vars map[string]any
 	vio  []Violation
 	// slowest is the longest virtual time any environment event stayed pending before it was answered.
-	slowest time.Duration
+	slowestBusy time.Duration
+	slowest     time.Duration
 	// statement-level points (see points.go)
 	pointsOn   bool
 	pointCount map[string]int
@@ -63,6 +64,15 @@ type World struct {
 }
 
 // SlowestAnswer returns the longest virtual time a gate stayed pending before it was granted (or the run ended).
+// SlowestBusyAnswer is SlowestAnswer without the "~~idle:" gates (events the environment produces only after a quiet
+// period by design, e.g. a source that has nothing to read for a while): how long the engine had to wait for an answer to
+// something it ASKED for.
+func (w *World) SlowestBusyAnswer() time.Duration {
+	w.mu.Lock()
+	defer w.mu.Unlock()
+	return w.slowestBusy
+}
+
 func (w *World) SlowestAnswer() time.Duration {
 	w.mu.Lock()
 	defer w.mu.Unlock()
@@ -215,6 +225,9 @@ func (w *World) Grant(name, answer string) bool {
 		if p.name == name {
 			if d := time.Since(w.start) - p.since; d > w.slowest {
 				w.slowest = d
+			}
+			if d := time.Since(w.start) - p.since; d > w.slowestBusy && !strings.HasPrefix(p.name, "~~idle:") {
+				w.slowestBusy = d
 			}
 			w.remove(p)
 			w.mu.Unlock()
